@@ -34,7 +34,6 @@ NA = {
     "C32": "substance is hash computation (Blake2b) over prepared payloads",
     "C33": "substance is signature verification (secp256k1, ed25519, BLS via C/asm)",
     "C34": "header/aggregation validators need prepared transaction structures (hash-bearing); not calibrated in the time available",
-    "C35": "relationship tables are IndexMap<SubintentHash,..> (map-backed; two operations did not finish under CBMC)",
     "C36": "static manifest interpreter over instruction vectors, boxed ASTs and maps",
     "C37": "constraint validators are comparison-only Decimal code over IndexSet-backed id sets; the fungible side would fit Engine M but was not built in the time available",
     "C38": "movement visitor over boxed ASTs and maps",
